@@ -167,6 +167,11 @@ func (s *mainQueueScheduler) forward(sender string, seq uint64) {
 		}
 
 		if tx.seq >= seq {
+			// The sender's first pending transaction may have become schedulable
+			// now that the queue has moved forward.
+			if !isPendingSchedule(tx) && s.isSchedulable(tx, seqHeap) {
+				s.maxHeap.push(tx)
+			}
 			break
 		}
 
